@@ -167,9 +167,15 @@ def c19_tasks(pid, tier, repo, seed, R):
 
 
 def c16_tasks(pid, tier, repo, seed, R):
-    tasks = def_tasks(pid, tier, repo, seed, R, ["_to_base", "_from_base", "_update"])
+    tasks = def_tasks(pid, tier, repo, seed, R, ["_to_base", "_from_base"])
     cl = concrete_classes(R)
     pick = cl if tier == "thorough" else [c for c in cl if c in ("JSONDict", "JSONList", "MemoryBufferedJSONAttrDict", "BufferedJSONList")]
+    # both _update bodies under the C16 provenance obligations: every class in the thorough tier, one class per family and
+    # container kind in the quick tier (the two bodies are shared by all classes; the per-class difference is the family)
+    upd = [t for t in def_tasks(pid, tier, repo, seed, R, ["_update"]) if t["cname"] in pick]
+    for t in upd:
+        t["label"] = t["label"].replace(":def:", ":def-update:")
+    tasks += upd
     sweeps = [(f"{c}:aliasing", "replay/c16_replay.py", ["search", c],
                "all container-taking/returning operations x 6 nested values; every container reachable from the "
                "argument / result mutated afterwards") for c in pick]
